@@ -102,3 +102,28 @@ def streams_of(res, ep, server_port=None):
     sp = ep.s_port if server_port is None else server_port
     key = ((ep.c_ip, ep.c_port), (ep.s_ip, sp))
     return convs.get(key), convs
+
+
+def concrete_udp_frames(ep, dgrams, t_scale=1000000):
+    out = []
+    ident = 1
+    for d in dgrams:
+        src = (ep.s_ip, ep.s_port, ep.s_mac) if d.from_server else (ep.c_ip, ep.c_port, ep.c_mac)
+        dst = (ep.c_ip, ep.c_port, ep.c_mac) if d.from_server else (ep.s_ip, ep.s_port, ep.s_mac)
+        out.append((F.concrete_udp_frame(src[2], dst[2], ep.ipv == 6, src[0], dst[0], src[1], dst[1], bytes(d.data), ident), int(d.ts * t_scale)))
+        ident += 1
+    return out
+
+
+def udp_of(res, ep, server_port=None):
+    """(from_server, payload, ticks) of the UDP packets between ep's endpoints in the output."""
+    sp = ep.s_port if server_port is None else server_port
+    out = []
+    for d in res["frames"]:
+        if d.get("l4") != "udp":
+            continue
+        if (d["src"], d["sport"], d["dst"], d["dport"]) == (ep.s_ip, sp, ep.c_ip, ep.c_port):
+            out.append((True, d["payload"], d["ts"][0]))
+        elif (d["src"], d["sport"], d["dst"], d["dport"]) == (ep.c_ip, ep.c_port, ep.s_ip, sp):
+            out.append((False, d["payload"], d["ts"][0]))
+    return out
